@@ -2,6 +2,7 @@ package lucene
 
 import (
 	"fmt"
+	"math"
 	"reflect"
 	"strconv"
 	"strings"
@@ -285,9 +286,10 @@ func parseLiteral(token lex.Token) (e any, err error) {
 		return expr.Lit(ival), nil
 	}
 
-	// attempt to parse it as a float
+	// attempt to parse it as a float. NaN and Inf are words here, not numbers: they can't be
+	// rendered as a sql number or serialized to json.
 	fval, err := strconv.ParseFloat(token.Val, 64)
-	if err == nil {
+	if err == nil && !math.IsNaN(fval) && !math.IsInf(fval, 0) {
 		return expr.Lit(fval), nil
 	}
 
